@@ -47,15 +47,19 @@ class Lock:
 
 # ------------------------------------------------------------------ builds
 
-def regenerate_gen():
-    """translators: source -> coq/gen/*.v (fail closed)"""
+TRANSLATOR_FOR = {"extract_orderings.py": ("C07",), "extract_bounds.py": ("C14",), "extract_surface.py": ("C14",)}
+
+
+def regenerate_gen(prop=None):
+    """translators: source -> coq/gen/*.v (fail closed).  Every translator runs before every build; a translator that
+    fails is a broken obligation of the properties whose theorems are stated over its output (the orderings: C07; the
+    bounds and the surface: C14) -- for the others the generated file of the last successful run stays in place"""
     msgs = []
     for path in sorted(glob.glob(os.path.join(ROOT, "tools", "extract_*.py"))):
         tool = os.path.basename(path)
-        if True:
-            rc, out = sh([sys.executable, path, REPO, os.path.join(COQ, "gen")], timeout=120)
-            if rc != 0:
-                msgs.append("%s failed: %s" % (tool, out.strip()[-2000:]))
+        rc, out = sh([sys.executable, path, REPO, os.path.join(COQ, "gen")], timeout=120)
+        if rc != 0 and (prop is None or prop in TRANSLATOR_FOR.get(tool, (prop,))):
+            msgs.append("%s failed: %s" % (tool, out.strip()[-2000:]))
     return msgs
 
 
@@ -64,7 +68,7 @@ def build_coq(prop=None):
     OCaml driver -- needed to run anything; (2) the proofs the property's theorems depend on (make props/Cxx.vo; all
     of the development when no property is given).  Returns (model_ok, proofs_ok, log, translator messages)."""
     with Lock("coq"):
-        msgs = regenerate_gen()
+        msgs = regenerate_gen(prop)
         rc, out = sh("coq_makefile -f _CoqProject -o Makefile", cwd=COQ, timeout=120)
         if rc != 0:
             return False, False, out, msgs
@@ -508,6 +512,8 @@ def parse_case_text(txt):
             cur["elem"] = w[1]
         elif w[0] == "chunkstyle":
             cur["chunkstyle"] = w[1]
+        elif w[0] == "ctor":
+            cur["ctor"] = w[1]
         elif w[0] == "c0":
             cur["c0"] = int(w[1])
         elif w[0] == "multi":
